@@ -148,7 +148,10 @@ def check_group(ctx, facts, rule):
             probe = Interp(facts, Order({}))
             cells = []
             for f in ga['variants'][0]['fields']:
-                v = registry_abs.default_wrapped(probe, f['ty']) if ('RwLock' in f['ty'] or 'Mutex' in f['ty']) else None
+                # a table: a lock over a collection, directly or inside a private wrapper type of the crate (`Registry<V>`)
+                fa_ = facts.adts.get(ty_head(f['ty'][f['ty'].index('<') + 1:-1] if ty_head(f['ty']) in ('alloc::sync::Arc', 'alloc::boxed::Box') and '<' in f['ty'] else f['ty']))
+                wrapper_ = fa_ is not None and fa_['def'].startswith(EC) and fa_['kind'] == 'struct' and any(('RwLock' in x['ty'] or 'Mutex' in x['ty']) for x in fa_['variants'][0]['fields'])
+                v = registry_abs.default_wrapped(probe, f['ty']) if ('RwLock' in f['ty'] or 'Mutex' in f['ty'] or wrapper_) else None
                 cells.append(Cell(v if v is not None else ('opaque', 'group-field:' + f['name'])))
             if not any(c.v[0] != 'opaque' for c in cells):
                 raise Unmodelled('the tables of KeyspaceGroup cannot be constructed')
